@@ -29,13 +29,16 @@
                       Proofs/GotoValidModel.v, GotoValidNav.v, GotoValidHandlers.v, GotoValidMain.v.
      C12_valid_text   the same for every rendering (Proofs/RenderProofs.v) of such a program
      C12_valid_ex     non-vacuity: the theorem applied to the valid program of Props/C14.v
-   NOT proved: C12_full_statement (Spec/Nav.v) in its formulation over "documents without diagnostics"; on top
-   of C12_valid it needs the completeness of the front end (no diagnostic => the text is a layout of a
-   well-typed abstract program).  Before b909979 it was refuted on the model by the witnesses of the findings
-   C12-proc-name-shadowed-by-own-local and C12-type-use-shadowed-by-local; on these witnesses it HOLDS now
-   (C12_repaired_witnesses_agree), and it is validated by the check: correspondence of the model with the
-   server, the derivation-based oracle, and the judge deciding the instances of the Coq statement itself on
-   generated programs (command 37). *)
+   PROVED (C12_full): C12_full_statement (Spec/Nav.v) in its formulation over "documents without diagnostics"
+   ([clean_doc t d]: AnalyzedSource::new succeeds, errors() is empty, no token carries a lexical error).  On top
+   of C12_valid this is the COMPLETENESS of the front end (Proofs/CompleteBase.v, CompleteExpr.v, CompleteStmt.v,
+   CompleteProg.v: a parse without diagnostic is the parse of a derivation of the grammar; Proofs/CompleteSem.v:
+   build/analyze attach nothing only to well-typed trees; Proofs/CompleteFront.v [front_end_complete]: no
+   diagnostic => the text is a layout of a well-typed abstract program).  Before b909979 the statement was
+   refuted on the model by the witnesses of the findings C12-proc-name-shadowed-by-own-local and
+   C12-type-use-shadowed-by-local; on these witnesses it HOLDS now (C12_repaired_witnesses_agree); it is also
+   validated by the check: correspondence of the model with the server, the derivation-based oracle, and the
+   judge deciding the instances of the Coq statement itself on generated programs (command 37). *)
 From Spl Require Import Props.C14.
 From Spl Require Import Proofs.GrammarProofs Spec.Typing Proofs.TypingProofs Proofs.RenderProofs Proofs.PipelineText.
 From Spl Require Import Proofs.HoverValid Proofs.GotoValidMain.
@@ -308,3 +311,19 @@ Example C12_valid_eval :
   /\ goto_declaration (doc_of c14_valid_text) 2 22 = ROk (Some ((0, 5), (0, 6)))
   /\ goto_declaration (doc_of c14_valid_text) 2 43 = ROk (Some ((2, 19), (2, 20))).
 Proof. vm_compute. repeat split. Qed.
+
+(* 12. the full functional statement itself, for every document without diagnostics: by the completeness of
+       the front end (Proofs/CompleteFront.v, front_end_complete) such a document is the document of a layout
+       of a well-typed abstract program, so C12_valid applies *)
+From Spl Require Import Proofs.CompleteFront.
+Theorem C12_front_end_complete : forall t d,
+  new_doc_res t = ODone d -> doc_errors_res d = ROk [] ->
+  forallb (fun tok => match terr tok with [] => true | _ => false end) (d_toks d) = true ->
+  exists p G, prog_ok p = true /\ map tk (d_toks d) = flatten p ++ [Eof] /\ well_typed (expected p) G
+              /\ d_ast d = expected p /\ d_table d = G.
+Proof. exact front_end_complete. Qed.
+Print Assumptions C12_front_end_complete.
+
+Theorem C12_full : C12_full_statement.
+Proof. exact full_statement_holds. Qed.
+Print Assumptions C12_full.
